@@ -162,7 +162,7 @@ func (c *Ctx) LoopDecodeTargets(pkgs ...string) []core.Ob {
 				return false
 			}
 			switch u := t.Underlying().(type) {
-			case *types.Slice, *types.Map:
+			case *types.Slice, *types.Map, *types.Pointer:
 				return true
 			case *types.Struct:
 				for i := 0; i < u.NumFields(); i++ {
@@ -228,7 +228,20 @@ func (c *Ctx) LoopDecodeTargets(pkgs ...string) []core.Ob {
 							if !ok || ld.Op != token.MUL || !lp.body[ld.Block()] || ld.Referrers() == nil {
 								continue
 							}
+							uses := append([]ssa.Instruction(nil), *ld.Referrers()...)
+							// boxed copies (an element of a []any): the interface value is what gets stored
 							for _, u := range *ld.Referrers() {
+								if mi, ok := u.(*ssa.MakeInterface); ok && mi.Referrers() != nil {
+									for _, uu := range *mi.Referrers() {
+										if st, ok := uu.(*ssa.Store); ok && st.Val == ssa.Value(mi) {
+											o.Status = core.Violated
+											o.Got = "the target " + al.Comment + " is decoded into on every iteration and its value is copied to " + addrKey(st.Addr) + " inside the loop: what one element leaves behind shows up in the next, and all copies share their slices and pointers"
+											o.Pos = c.P.Pos(st.Pos())
+										}
+									}
+								}
+							}
+							for _, u := range uses {
 								if st, ok := u.(*ssa.Store); ok && st.Val == ssa.Value(ld) && st.Addr != ssa.Value(al) {
 									o.Status = core.Violated
 									o.Got = "the target " + al.Comment + " is decoded into on every iteration and its value is copied to " + addrKey(st.Addr) + " inside the loop: all copies share one buffer"
